@@ -419,6 +419,8 @@ func runHevc(c *runner.Ctx) {
 	for _, s := range spsRecs {
 		spsByID[s.ID] = s
 	}
+	var prior []string
+	var parsed []*witness
 	for k := 0; k < 8; k++ {
 		p := ppsRecs[r.Intn(len(ppsRecs))]
 		if !ppsUsable[p.ID] {
@@ -449,12 +451,42 @@ func runHevc(c *runner.Ctx) {
 		for _, h := range hz {
 			c.Seen("hevc.slice.inference-needed", h)
 		}
-		w := &witness{Codec: "hevc", Kind: "slice", NAL: hx(cd.NAL), SPS: spsHex, PPS: ppsHex, Want: cd.Elems, Size: cd.HeaderSize, Hazards: hz, Branches: cd.Branches}
+		w := &witness{Codec: "hevc", Kind: "slice", NAL: hx(cd.NAL), SPS: spsHex, PPS: ppsHex, Want: cd.Elems, Size: cd.HeaderSize, Hazards: hz, Branches: cd.Branches,
+			Prior: append([]string{}, prior...)}
 		checkHevcSlice(c, w, spsMap, ppsMap)
+		prior = append(prior, w.NAL)
+		parsed = append(parsed, w)
+		if len(sl.LT) > 0 {
+			// the same slice with every delta_poc_msb_present_flag inverted, parsed right after it
+			// against the same maps: nothing of the first parse may survive into the second
+			tw := *sl
+			tw.LT = append([]h265.LTEntry{}, sl.LT...)
+			for i := range tw.LT {
+				tw.LT[i].DeltaPocMsbPresent = !tw.LT[i].DeltaPocMsbPresent
+				if tw.LT[i].DeltaPocMsbCycleLt == 0 {
+					tw.LT[i].DeltaPocMsbCycleLt = uint64(1 + r.Intn(7))
+				}
+			}
+			tcd, tinfo := tw.Encode(s, p)
+			tcd.Elems = append(tcd.Elems, h265.Elem{Name: "#Size", Val: int64(tcd.HeaderSize)})
+			c.Seen("hevc.slice.branch", "long-term-twin-with-inverted-msb-present-flags")
+			tww := &witness{Codec: "hevc", Kind: "slice", NAL: hx(tcd.NAL), SPS: spsHex, PPS: ppsHex, Want: tcd.Elems, Size: tcd.HeaderSize,
+				Hazards: hevcSliceHazards(tinfo), Branches: tcd.Branches, Prior: append([]string{}, prior...)}
+			checkHevcSlice(c, tww, spsMap, ppsMap)
+			prior = append(prior, tww.NAL)
+			parsed = append(parsed, tww)
+		}
 		if c.WantSample() && k == 0 {
 			c.Sample(map[string]interface{}{"codec": "hevc", "kind": "slice", "nal": hx(cd.NAL), "header_bits": cd.HeaderBits, "header_size": cd.HeaderSize,
 				"pps_id": p.ID, "sps_id": p.SPSID, "branches": cd.Branches})
 		}
+	}
+	// second pass: every slice once more against the maps all the others have been parsed with
+	for _, w := range parsed {
+		w2 := *w
+		w2.Prior = append([]string{}, prior...)
+		c.Count("hevc.slice.second_pass", 1)
+		checkHevcSlice(c, &w2, spsMap, ppsMap)
 	}
 	c.Nontrivial(runner.Hash64(hashParts...))
 }
@@ -471,6 +503,9 @@ func replayHevc(c *runner.Ctx, w *witness) {
 		if pps, err := hevc.ParsePPSNALUnit(p, spsMap); err == nil && pps != nil {
 			ppsMap[pps.PicParameterSetID] = pps
 		}
+	}
+	for _, n := range unhxAll(w.Prior) {
+		c.Guard(func() { _, _ = hevc.ParseSliceHeader(n, spsMap, ppsMap) })
 	}
 	switch w.Kind {
 	case "sps":
